@@ -434,6 +434,10 @@ def stream(prop, seed, n, mode="wrapping"):
                              mode=mode, owning_only=True)
         elif prop == "C09":
             c = gen_conc(r, cid, WITH_SKIP, mode=mode)
+            if c["env"]["kind"] == "iter" and r.chance(1, 6):
+                # "everything that is left": one request of 2^61 or 2^62 elements (the sum of all requests stays far below 2^64)
+                p = c["progs"][r.below(len(c["progs"]))]
+                p.insert(r.below(len(p) + 1), "chunk:%d:%d" % (r.choice([1 << 61, 1 << 62]), r.choice([0, 1, 9])))
         elif prop == "C10":
             c = gen_conc(r, cid, WITH_SKIP if r.chance(1, 3) else PULLS, mode=mode,
                          final="seq:%d" % r.weighted([(0, 1), (1, 1), (2, 1), (100, 4)]), adaptors=r.chance(1, 4))
@@ -448,8 +452,12 @@ def stream(prop, seed, n, mode="wrapping"):
                 c["env"]["owning"] = False
         elif prop == "C16":
             c = gen_boundary(r, cid, mode)
+            if c["env"]["kind"] == "slice" and r.chance(1, 3):
+                c["env"]["adaptor"] = r.choice(["cloned", "copied"])
+            elif c["env"]["kind"] == "iter" and not c["env"]["owning"] and r.chance(1, 2):
+                c["env"]["adaptor"] = r.choice(["cloned", "copied"])
         elif prop == "C17":
-            c = gen_conc(r, cid, WITH_SKIP, mode=mode, maxthreads=2)
+            c = gen_conc(r, cid, dict(WITH_SKIP, chunk0=1) if r.chance(1, 3) else WITH_SKIP, mode=mode, maxthreads=2)
         elif prop == "C18":
             allow = dict(next=4, chunk=3, buf=3, loop=1, loopcrash=2)
             c = gen_conc(r, cid, allow, mode=mode, crash=True, owning_only=r.chance(1, 2))
